@@ -2,7 +2,7 @@
 
 Hyperscan is given the UTF-8 *bytes* of each pattern and, without UTF-8 mode, reads them as a pattern over
 bytes: a multi-byte character is a sequence of byte literals, a class lists bytes, `\\w \\d \\s` and case folding
-are ASCII-only, a quantifier binds to the last byte.  Python reads the same pattern over characters.  For the
+are ASCII-only, a quantifier binds to the last byte, and `{,n}` is literal text (PCRE has no such quantifier).  Python reads the same pattern over characters.  For the
 token itself (capture group 1 of every extractor) this module decides, per extractor and with no length bound:
 
     for every string w over  ASCII + representative multi-byte characters  that Python's pattern for group 1
@@ -128,12 +128,15 @@ def job(i, budget=1):
         py = sp.parse(e.regex, e.flags)
         g_py = group1(py)
         hs_src = (x if isinstance(x, bytes) else x.encode("utf8")).decode("latin-1")
+        # PCRE (Hyperscan's syntax) has no {,n}: it is read as literal text
+        pcre_literal = "{," in hs_src
+        hs_src = re.sub(r"\{,(\d+)\}", lambda m_: "\\{," + m_.group(1) + "\\}", hs_src)
         hs = sp.parse(hs_src, (e.flags & re.I) | re.ASCII)
         g_hs = group1(hs)
         if g_py is None or g_hs is None:
             out["verdict"] = "unsupported:no group 1"
             return out
-        if not multibyte_capable(g_py, py.state.flags):
+        if not pcre_literal and not multibyte_capable(g_py, py.state.flags):
             # no item of the Python-level core can match a non-ASCII character: both readings are over ASCII and
             # differ only in \d \s \w and case folding of non-ASCII characters, which the alphabet excludes
             out["verdict"] = "ascii-only"
